@@ -67,7 +67,7 @@ func init() {
 			if tier == "thorough" {
 				return []core.Suite{{Name: "enum", N: len(c06Enum(tier)), Exhaustive: true}, {Name: "rand", N: 150000}, {Name: "tall", N: 60, CaseTimeout: 900}}
 			}
-			return []core.Suite{{Name: "enum", N: len(c06Enum(tier)), Exhaustive: true}, {Name: "rand", N: 2500}, {Name: "tall", N: 2, CaseTimeout: 900}}
+			return []core.Suite{{Name: "enum", N: len(c06Enum(tier)), Exhaustive: true}, {Name: "rand", N: 10000}, {Name: "tall", N: 4, CaseTimeout: 900}}
 		},
 		Run: func(c *core.Ctx) {
 			var s fScenario
